@@ -53,6 +53,21 @@ theorem add_after_remove_no_overlap (l : Lay) (ok : l.Ok) (t : Nat) (b : BlkArg)
   rw [h1]
   exact (wfTable_of_lay _ h2).2.1
 
+/-- THE JUDGE IS EXACT: `wfB`, which the harness runs on the bytes the real code leaves on disk, accepts
+    a file iff its header and table parse and the parsed table satisfies the declarative `WFTable` -/
+theorem judge_exact (file : Bytes) :
+    wfB file = true ↔
+      ∃ h es rest, decTable.run file = some ((h, es), rest) ∧ WFTable h.nEntries.toNat file.length es := by
+  unfold wfB
+  cases hd : decTable.run file with
+  | none => simp
+  | some r =>
+    obtain ⟨⟨h, es⟩, rest⟩ := r
+    simp only [decide_eq_true_eq, Option.some.injEq, Prod.mk.injEq]
+    constructor
+    · intro hw; exact ⟨h, es, rest, ⟨⟨rfl, rfl⟩, rfl⟩, hw⟩
+    · rintro ⟨h', es', rest', ⟨⟨rfl, rfl⟩, rfl⟩, hw⟩; exact hw
+
 /-! non-vacuity: the file written by `Tdf.new` is such a start state, for every clock value in range -/
 def freshLay (now : Int) : Lay :=
   ⟨(Header.enc ⟨1, 14, now, now, now⟩), 14, [], List.replicate 14 ⟨0, now, now, now, defaultComment⟩⟩
